@@ -298,9 +298,10 @@ func judge(sc clientx.Sc, run clientx.Run, c Case, res *ev.Result) (nontrivial b
 			bad("write-error-misclassified", fmt.Sprintf("error %v (%T) does not wrap the write failure in *ClientError", run.Err, run.Err))
 		}
 	case cancelled && !sawInjectedRead && !oversize:
-		if c.Fault == "ctx-deadline" && !sc.Kind.IsSerial() && run.Elapsed > ctxTimeout+readTimeout/4 {
+		if c.Fault == "ctx-deadline" && !sc.Kind.IsSerial() && run.Elapsed > ctxTimeout+readTimeout/2 {
 			// the caller's deadline passed at ctxTimeout; the network clients look at the context between polls of 0.5 ms
-			// (the serial client's 30 ms pause after the write does not look at it - nothing is demanded of that here)
+			// (the serial client's 30 ms pause after the write does not look at it - nothing is demanded of that here); the bound is
+			// generous: half a read timeout after the deadline
 			bad("cancel-noticed-late", fmt.Sprintf("the caller's deadline passed at %v on the virtual clock, the call returned only at %v", ctxTimeout, run.Elapsed))
 		}
 		if !errors.Is(run.Err, ctxErr) {
